@@ -488,30 +488,14 @@ func checkIntraSenders(c *Ctx, res *report.Result, rule string) {
 					// nil
 				case *ssa.Extract:
 					if lk, isL := x.Tuple.(*ssa.Lookup); isL && x.Index == 0 {
-						_, fld, _ := flow.FieldLoadOf(lk.X)
-						keyDesc := "?"
-						if kl := flow.ResolveLoad(lk.Index); kl != nil {
-							if ld, isLd := kl.(*ssa.UnOp); isLd {
-								if al, isAl := ld.X.(*ssa.Alloc); isAl {
-									fs, _ := flow.FieldStores(al)
-									t, okT := fs["targetShard"].(*ssa.Parameter)
-									sv, okS := fs["sourceShard"].(*ssa.Parameter)
-									if okT && okS && len(f.Params) >= 5 && t == f.Params[3] && sv == f.Params[4] {
-										keyDesc = "own pair"
-									} else {
-										keyDesc = "another key"
-									}
-								}
-							}
-						}
-						origins = append(origins, fld+"["+keyDesc+"]")
+						origins = append(origins, lookupDesc(f, lk))
 					} else if _, isN := x.Tuple.(*ssa.Next); isN {
 						origins = append(origins, "range over the table")
 					} else {
 						origins = append(origins, "?"+flow.Describe(x))
 					}
 				case *ssa.Lookup:
-					origins = append(origins, "lookup")
+					origins = append(origins, lookupDesc(f, x))
 				default:
 					origins = append(origins, "?"+flow.Describe(v))
 				}
@@ -649,4 +633,27 @@ func checkNodeMetaNeverEmpty(c *Ctx, res *report.Result, rule string) {
 		res.Check(okGuard, rule, fmt.Sprintf("NodeMeta: empty state #%d only without a manager/configuration or after a marshal error", n), instrPos(c.Prog, ret), "guarded by a nil test or err != nil", "NodeMeta can return an empty state for another reason ("+strings.Join(gtxt, "; ")+"): memberlist never hands an empty state to MergeRemoteState, so the peers keep this node's previous shard list - a node that lost its shards to a newer claim stays their owner in every peer's view")
 	}
 	res.Analysed["nodemeta_nil_returns"] = n
+}
+
+// lookupDesc describes a lookup in a peer's stream table: "<table>[own pair]" when the key is the struct built from
+// the enclosing function's own (target shard, source shard) parameters.
+func lookupDesc(f *ssa.Function, lk *ssa.Lookup) string {
+	_, fld, _ := flow.FieldLoadOf(lk.X)
+	keyDesc := "?"
+	kl := flow.ResolveLoad(lk.Index)
+	var al *ssa.Alloc
+	if ld, isLd := kl.(*ssa.UnOp); isLd {
+		al, _ = ld.X.(*ssa.Alloc)
+	}
+	if al != nil {
+		fs, _ := flow.FieldStores(al)
+		t, okT := fs["targetShard"].(*ssa.Parameter)
+		sv, okS := fs["sourceShard"].(*ssa.Parameter)
+		if okT && okS && len(f.Params) >= 5 && t == f.Params[3] && sv == f.Params[4] {
+			keyDesc = "own pair"
+		} else {
+			keyDesc = "another key"
+		}
+	}
+	return fld + "[" + keyDesc + "]"
 }
